@@ -135,10 +135,10 @@ def random_ops(rng, nr, nc, with_borders, cycles):
         for c in setters:
             if c == "rh":
                 for _ in range(rng.randint(1, 2)):
-                    ops.append({"op": "set", "k": "rh", "i": rng.randint(1, nr), "v": rng.choice([10, 24, 37, 50, 100, 212])})
+                    ops.append({"op": "set", "k": "rh", "i": rng.randint(1, nr), "v": rng.choice([10, 24, 37, 50, 51, 100, 212])})
             elif c == "cw":
                 for _ in range(rng.randint(1, 2)):
-                    ops.append({"op": "set", "k": "cw", "i": rng.randint(1, nc), "v": rng.choice([20, 64, 98, 120, 305])})
+                    ops.append({"op": "set", "k": "cw", "i": rng.randint(1, nc), "v": rng.choice([20, 64, 98, 99, 120, 305])})
             elif c == "hr":
                 ops.append({"op": "set", "k": "hr", "v": rng.randint(0, min(5, nr))})
             elif c == "hc":
@@ -156,9 +156,9 @@ def random_ops(rng, nr, nc, with_borders, cycles):
         if with_borders and cyc == 0:
             for _ in range(rng.randint(1, 2)):
                 if rng.random() < 0.5:
-                    ops.append({"op": "border", "axis": "row", "i": rng.randint(1, nr), "w": rng.choice([1, 2, 4, 8]), "side": rng.choice(["top", "bottom"])})
+                    ops.append({"op": "border", "axis": "row", "i": rng.randint(1, nr), "w": rng.choice([1, 2, 3, 4, 8]), "side": rng.choice(["top", "bottom"])})
                 else:
-                    ops.append({"op": "border", "axis": "col", "i": rng.randint(1, nc), "w": rng.choice([1, 2, 4, 8]), "side": rng.choice(["left", "right"])})
+                    ops.append({"op": "border", "axis": "col", "i": rng.randint(1, nc), "w": rng.choice([1, 2, 3, 4, 8]), "side": rng.choice(["left", "right"])})
         rng.shuffle(ops[-6:])
         for _ in range(rng.randint(0, 3)):
             c = rng.choice(["rh", "cw", "height", "width", "other"])
@@ -171,7 +171,7 @@ def random_ops(rng, nr, nc, with_borders, cycles):
 
 def mechanism_histories(ctx, depth):
     """All bounded behaviours of the Level-B mechanism (Mode = separate) become abstract histories over row 2 / column 2."""
-    cfg = ('CONSTANTS Lines = {"r", "c"}\nSizes = {30, 45}\nWidths = {4}\nDefault = 20\nMode = "separate"\nD = %d\n'
+    cfg = ('CONSTANTS Lines = {"r", "c"}\nSizes = {60, 82, 90}\nWidths = {1, 3, 8}\nDefault = 40\nMode = "separate"\nD = %d\n'
            'SPECIFICATION Spec\nCONSTRAINT Depth\nCHECK_DEADLOCK FALSE\n' % depth)
     dump = os.path.join(ctx.scratch, "geodump")
     res = ctx.tlc("Geometry", cfg, what="Gen_Geometry", dump=dump, timeout=1800)
@@ -189,11 +189,11 @@ def mechanism_histories(ctx, depth):
         for o in h:
             row = o.get("l") == "r"
             if o["op"] == "set":
-                ops.append({"op": "set", "k": "rh" if row else "cw", "i": 2, "v": o["v"]})
+                ops.append({"op": "set", "k": "rh" if row else "cw", "i": 2, "v": o["v"] // 2})       # half points -> points
             elif o["op"] == "query":
                 ops.append({"op": "query", "k": "rh" if row else "cw", "i": 2})
             elif o["op"] == "border":
-                ops.append({"op": "border", "axis": "row" if row else "col", "i": 2, "w": 2 * o["w"], "side": "top" if row else "left"})
+                ops.append({"op": "border", "axis": "row" if row else "col", "i": 2, "w": o["w"], "side": "top" if row else "left"})     # allowance in half points = width in points
             else:
                 ops.append({"op": o["op"]})
         if ops[-1]["op"] != "save":
@@ -212,9 +212,9 @@ def run(ctx):
                        "effect on the open document: C03), so that rows/columns can stay unqueried until the file is written",
                        "structural edits are not mixed with geometry setters (outside C16's quantifier)"]
     ctx.stage("model-check")
-    base = 'CONSTANTS Lines = {"r1", "c1"}\nSizes = {30, 40}\nWidths = {0, 4}\nDefault = 20\nMode = "%s"\nD = %d\nSPECIFICATION Spec\nVIEW NoHist\nCONSTRAINT Depth\nINVARIANT SurvivesReload\nPROPERTY QueryIsReadOnly\nCHECK_DEADLOCK FALSE\n'
+    base = 'CONSTANTS Lines = {"r1", "c1"}\nSizes = {60, 82}\nWidths = {0, 1, 8}\nDefault = 40\nMode = "%s"\nD = %d\nSPECIFICATION Spec\nVIEW NoHist\nCONSTRAINT Depth\nINVARIANT SurvivesReload\nPROPERTY QueryIsReadOnly\nCHECK_DEADLOCK FALSE\n'
     ctx.tlc("Geometry", base % ("separate", 7 if q else 9), what="MC_Geometry[separate]", timeout=3000)
-    for m in ("SaveFromMemoOnly", "AllowanceSavedBack"):
+    for m in ("SaveFromMemoOnly", "AllowanceSavedBack", "UnflooredAllowance"):
         ctx.tlc("Geometry", base % (m, 7), what="Bug_%s" % m, expect_violation="SurvivesReload", count=False)
     ctx.stage("generate")
     mh, nstates = mechanism_histories(ctx, 4 if q else 5)
